@@ -537,6 +537,7 @@ pub fn run(tier: Tier) -> i32 {
         }
     }
     let mut miri_runs = 0u64;
+    let mut miri_partitions_cut_short = 0u64;
     for (p, c) in children {
         let o = c.wait_with_output().expect("wait for miri");
         let stdout = String::from_utf8_lossy(&o.stdout).to_string();
@@ -565,7 +566,9 @@ pub fn run(tier: Tier) -> i32 {
                 if panicked && !ub && !stderr.contains("overflow") {
                     // a plain panic (assertion, index out of range) under Miri is a functional
                     // defect of another property, not memory unsafety; arithmetic overflow is C17's
+                    // the rest of this partition was not run: the exploration is not complete
                     rep.acc.count("prerequisite_functional_panic_under_miri_(other_property)", 1);
+                    miri_partitions_cut_short += 1;
                     continue;
                 }
                 if ub || panicked {
@@ -592,7 +595,7 @@ pub fn run(tier: Tier) -> i32 {
     rep.acc.nontrivial += miri_runs;
     rep.acc.count("miri_scenario_runs", miri_runs);
     let capped = rep.acc.counters.get("native_configurations_capped").copied().unwrap_or(0) > 0;
-    rep.set("exhaustive", json!(!capped));
+    rep.set("exhaustive", json!(!capped && miri_partitions_cut_short == 0));
     rep.set("rule", json!("(a) native, checking global allocator (guard bands verified on free, dealloc layout must equal alloc layout, freed memory poisoned, per-scenario leak accounting) + overflow checks + debug assertions: closure BFS over the real sorter's bookkeeping states with a state-relative size menu {0, 1, exactly the remaining space, one byte more, larger than the buffer (one doubling), larger than twice the buffer (several doublings)} for both reallocation policies, growth symbols disabled once the buffer exceeds the cap printed in the caps in counters.native_growth_cap_factor_* x T; every transition replays the history on a fresh sorter, finishes it and compares the output with the model; plus four runs with the shipped constants (buffers of 128 KiB doubling to 8 MiB, 10 MiB at once), absurd budgets (2^62 .. usize::MAX, each in a process of its own: refusal by panic or by the allocation-error abort is accepted, a size-arithmetic overflow or a zero-sized / impossible layout reaching the allocator is not), read-path (scan/seek/range/prefix, every codec) and merge scenarios with results compared to the model; (b) the same kind of size sequences and read-path scenarios executed under Miri (Stacked Borrows, leak check) in 16 partitions; distinct_nontrivial = native configurations + Miri scenario runs"));
     rep.set("bound", json!({"native": "closure below the growth cap (see samples and counters.native_growth_cap_factor_*)", "miri_partitions": parts}));
     rep.assume("Miri's verdict is per execution: the claim is 'for every enumerated execution'; zstd (FFI) is not run under Miri");
